@@ -243,6 +243,16 @@ Theorem reorder_indices_spec :
 Proof. intros A O L. exact (vreorder_indices_spec L). Qed.
 Print Assumptions reorder_indices_spec.
 
+(** ... hence a matching as the documentation of computeReorderIndices promises (an index is the position of an
+    old element with the same key, no position is used twice, -1 only if every old position with that key is
+    used) - the property the harness checks on the implementation's own index lists, whichever valid matching
+    an implementation prefers among elements with the same key. *)
+Theorem reorder_indices_is_matching :
+  forall (A : Type) (O : atom_ops A), atom_laws O ->
+  forall o n : list (val A), is_matching o n (vcompute_reorder_indices o n).
+Proof. intros A O L. exact (vreorder_indices_matching L). Qed.
+Print Assumptions reorder_indices_is_matching.
+
 (** An element matched with an old object is diffed field by field, never resent whole. *)
 Theorem matched_objects_not_resent :
   forall (A : Type) (O : atom_ops A), atom_laws O ->
